@@ -187,7 +187,80 @@ class GuardClause(ast.NodeTransformer):
         return node
 
 
-KINDS = {"reformat": None, "rename": Rename, "flipif": FlipIf, "swapeq": SwapEq, "renamecomp": RenameComp, "notform": DeMorgan, "guardclause": GuardClause}
+class AugToAssign(ast.NodeTransformer):
+    """`x += e` -> `x = x + e` for plain names and self attributes (numbers / immutable use only: += on a list
+    mutates in place, so targets whose name suggests a container are left alone)"""
+
+    def visit_AugAssign(self, node):
+        t = node.target
+        if isinstance(node.op, (ast.Add, ast.Sub)) and (isinstance(t, ast.Name) or (isinstance(t, ast.Attribute) and isinstance(t.value, ast.Name))):
+            txt = ast.unparse(t)
+            if isinstance(node.value, (ast.List, ast.ListComp, ast.Call)) and not (isinstance(node.value, ast.Call) and ast.unparse(node.value.func) in ("len", "sum", "int", "float", "abs", "min", "max")):
+                return node
+            if any(k in txt for k in ("list", "orphan", "msgs", "str", "content", "candidates", "values", "names", "dcop", "args", "nodes", "agents", "hosted", "options", "desc", "parts", "s", "res")) and not txt.endswith(("cost", "count", "_cycle", "counter")):
+                return node
+            import copy
+            load = copy.deepcopy(t)
+            for n in ast.walk(load):
+                if hasattr(n, "ctx"):
+                    n.ctx = ast.Load()
+            return ast.copy_location(ast.Assign(targets=[t], value=ast.BinOp(left=load, op=node.op, right=node.value)), node)
+        return node
+
+
+class Literals(ast.NodeTransformer):
+    """`[]` -> `list()`, `{}` -> `dict()` (empty displays only, not in default arguments)"""
+
+    def visit_List(self, node):
+        self.generic_visit(node)
+        if not node.elts and isinstance(node.ctx, ast.Load):
+            return ast.copy_location(ast.Call(func=ast.Name(id="list", ctx=ast.Load()), args=[], keywords=[]), node)
+        return node
+
+    def visit_Dict(self, node):
+        self.generic_visit(node)
+        if not node.keys:
+            return ast.copy_location(ast.Call(func=ast.Name(id="dict", ctx=ast.Load()), args=[], keywords=[]), node)
+        return node
+
+
+class DropLog(ast.NodeTransformer):
+    """remove logging statements (`self.logger.x(..)`, `logger.x(..)`, `if ...isEnabledFor(..): <logging only>`, print)"""
+
+    @staticmethod
+    def _is_log(st):
+        if isinstance(st, ast.Expr) and isinstance(st.value, ast.Call):
+            f = ast.unparse(st.value.func)
+            return ".logger." in f or f.startswith("logger.") or f.startswith("self.logger.") or f == "print"
+        return False
+
+    def _block(self, stmts):
+        out = []
+        for st in stmts:
+            st = self.visit(st)
+            if st is None:
+                continue
+            if self._is_log(st):
+                continue
+            if isinstance(st, ast.If) and "isEnabledFor" in ast.unparse(st.test) and not st.orelse and all(isinstance(x, ast.Pass) for x in st.body):
+                continue
+            out.append(st)
+        return out or [ast.Pass()]
+
+    def generic_visit(self, node):
+        for fld in ("body", "orelse", "finalbody"):
+            v = getattr(node, fld, None)
+            if isinstance(v, list) and v and isinstance(v[0], ast.stmt):
+                nb = self._block(v)
+                if fld != "body" and all(isinstance(x, ast.Pass) for x in nb):
+                    nb = []
+                setattr(node, fld, nb)
+        for h in getattr(node, "handlers", []) or []:
+            h.body = self._block(h.body)
+        return node
+
+
+KINDS = {"reformat": None, "droplog": DropLog, "literals": Literals, "augassign": AugToAssign, "rename": Rename, "flipif": FlipIf, "swapeq": SwapEq, "renamecomp": RenameComp, "notform": DeMorgan, "guardclause": GuardClause}
 
 
 def transform(src, kind):
